@@ -66,7 +66,6 @@ Flag(rules) == /\ bad' = (IF Len(bad) < 200 THEN bad \o [i \in 1..Len(rules) |->
                /\ nbad' = nbad + Len(rules)
 Has(e, f) == f \in DOMAIN e
 OkDev(e) == Has(e, "d") /\ e.d \in Devs
-OkFd(e) == Has(e, "fd") /\ e.fd \in Fds
 Others(d) == Devs \ {d}
 OwnedByOther(d, fd) == \E x \in Others(d) : fd \in o.owned[x]
 LowestFree == IF \E f \in Fds : f >= FirstFd /\ o.fdt[f] = 0
@@ -157,17 +156,21 @@ Step ==
                                                ELSE [q \in DOMAIN o.content \cup {e.path} |->
                                                        IF q = e.path THEN <<>> ELSE o.content[q]],
                                    !.known = IF e.path \in DOMAIN o.content THEN o.known ELSE o.known \cup {e.path}]
+       \* a descriptor number outside the table (e.g. -1 left by a failed open) was certainly never opened by the device
        [] k = "Flock" ->
-            IF ~OkFd(e) THEN Flag(<<"HarnessBadEvent">>) /\ o' = o
+            IF ~Has(e, "fd") THEN Flag(<<"HarnessBadEvent">>) /\ o' = o
+            ELSE IF e.fd \notin Fds THEN Flag(If(o.synced, "FlockNeverOpened")) /\ o' = [o EXCEPT !.pend[e.d] = TRUE, !.mkFail[e.d] = TRUE]
             ELSE /\ Flag(UseRules(e.d, e.fd, "FlockAfterClose", "FlockForeignDescriptor", "FlockNeverOpened"))
                  /\ o' = IF e.r < 0 THEN [o EXCEPT !.pend[e.d] = TRUE, !.mkFail[e.d] = TRUE] ELSE o
        [] k = "Pwrite" ->
-            IF ~OkFd(e) THEN Flag(<<"HarnessBadEvent">>) /\ o' = o
+            IF ~Has(e, "fd") THEN Flag(<<"HarnessBadEvent">>) /\ o' = o
+            ELSE IF e.fd \notin Fds THEN Flag(If(o.synced, "WriteNeverOpened")) /\ o' = [o EXCEPT !.pend[e.d] = TRUE]
             ELSE /\ Flag(UseRules(e.d, e.fd, "WriteAfterClose", "WriteForeignDescriptor", "WriteNeverOpened")
                          \o If(e.r > e.req \/ (e.r > 0 /\ o.synced /\ o.fdt[e.fd] = 0), "HarnessPwriteResult"))
                  /\ o' = IF e.r < 0 THEN [o EXCEPT !.pend[e.d] = TRUE] ELSE DoPwrite(e)
        [] k = "Close" ->
-            IF ~OkFd(e) THEN Flag(<<"HarnessBadEvent">>) /\ o' = o
+            IF ~Has(e, "fd") THEN Flag(<<"HarnessBadEvent">>) /\ o' = o
+            ELSE IF e.fd \notin Fds THEN Flag(If(o.synced, "CloseNeverOpened")) /\ o' = o
             ELSE /\ Flag(CloseRules(e.d, e.fd))
                  /\ o' = [o EXCEPT !.fdt[e.fd] = 0,
                                    !.owned[e.d] = o.owned[e.d] \ {e.fd},
